@@ -648,6 +648,10 @@ class TermMixin:
                 sub = dict(zip(names, targs)) if len(names) == len(targs) else dict(zip(names[-len(targs):], targs)) if targs else {}
                 if f["trait"] and not largs and f["self_ty"] is not None:
                     sub = {}
+                if f["trait"] and f["self_ty"] is not None and body.get("impl_self") is None and self.T.t(f["self_ty"])["k"] not in ("param", "dyn"):
+                    # a provided (default) method of a trait, inlined for a concrete receiver type
+                    sub = dict(sub)
+                    sub.setdefault("Self", f["self_ty"])
                 # const generics: `read::<4>(..)`, or a const parameter of the caller passed on (`read::<N>(..)`)
                 allg = [g for g in body.get("generics", []) if not g.startswith("'")]
                 alla = [a for a in (largs or ())]
